@@ -58,6 +58,7 @@ IdlePass == [ active |-> FALSE, actor |-> "", target |-> "", oid |-> "", ouid |-
               gone404 |-> {},
               created |-> FALSE,
               pulled |-> "",                             \* package controller: class of the content pulled in this pass
+              odw |-> <<>>,                             \* deployment controller: its write requests on ObjectSets, classified (DeployPlan ops)
               gcSeen |-> {},                            \* package controller: uids of the ObjectSets that existed when it listed them for slice GC
               sliceSeq |-> <<>>,                          \* package controller: <<name, content>> per chunk, in chunk order
               nf |-> {} ]                                \* keys an uncached Get of this pass did not find      \* package controller: content hash of the slice it wanted under name k                        \* deployment controller: this pass created an ObjectSet                           \* keys whose Delete was answered with NotFound                             \* deployment controller: key whose Create hit AlreadyExists
@@ -65,7 +66,7 @@ IdlePass == [ active |-> FALSE, actor |-> "", target |-> "", oid |-> "", ouid |-
 Init == /\ l = 1
         /\ store = [ k \in Keys |-> Absent ]
         /\ pass = [ p \in PassIds |-> IdlePass ]
-        /\ lw = [ valid |-> FALSE, e |-> Trace[1] ]
+        /\ lw = [ valid |-> FALSE, e |-> Trace[1], conf |-> TRUE ]
         /\ hist = [ succeeded |-> {}, archived |-> {}, creates |-> [ k \in Keys |-> 0 ], unpacked |-> [ k \in Keys |-> "" ] ]
         /\ scen = NoRow
 
@@ -140,7 +141,7 @@ DeploymentOf(o) == o.cr.depKey
 
 E == Trace[l]
 IsEv(name) == l <= Len(Trace) /\ E.ev = name
-Advance == l' = l + 1 /\ lw' = [ valid |-> TRUE, e |-> E ]
+Advance == l' = l + 1 /\ lw' = [ valid |-> TRUE, e |-> E, conf |-> TRUE ]
 
 SetStore(k, o) == store' = [ store EXCEPT ![k] = o ]
 
@@ -184,11 +185,48 @@ TrPassBegin ==
     /\ UNCHANGED <<store, hist, scen>>
     /\ Advance
 
+---------------------------------------------------------------------------
+(* Conformance of the deployment controller with the design model's decision function (DeployPlan!Plan): the write
+   requests of every recorded pass are exactly what Plan computes from what the pass read - a prefix of it if the
+   pass ended with an error.  A divergence means the model PKODeploy.tla no longer describes the code (it is
+   reported as CONFORMANCE-DIVERGENCE, not as a violation of a property). *)
+DP == INSTANCE DeployPlan
+
+HistLimit(pr) == IF pr.snap.cr.histLimit < 0 THEN 10 ELSE pr.snap.cr.histLimit
+IsDepActorA(a) == a \in {"od", "cod"}
+
+LifeOf(c) == IF c.lifecycle = "" THEN "Active" ELSE c.lifecycle
+PlanL(pr) ==
+    LET ks == { pr.listed[i].key : i \in DOMAIN pr.listed } IN
+    [ n \in ks |->
+        LET x == pr.listed[CHOOSE i \in DOMAIN pr.listed : pr.listed[i].key = n] IN
+        [ ex |-> TRUE, rev |-> x.cr.revision, avail |-> CondTrue(x.cr, "Available"), life |-> LifeOf(x.cr),
+          mark |-> x.cr.pausedByParent, stPaused |-> CondTrue(x.cr, "Paused"), cofSet |-> ~x.cr.cofNil,
+          cof |-> Range(x.cr.controllerOf),
+          objs |-> UNION { Range(x.cr.phases[j].keys) : j \in DOMAIN x.cr.phases },      \* inline objects only, as the code reads them
+          hash |-> x.cr.hash ] ] @@ <<>>          \* (@@ materialises the function: TLC would re-evaluate the body on every access)
+\* the hash the pass computed: in the status it wrote, else in the ObjectSet it tried to create
+OdHash(pr) == IF pr.statusWritten THEN pr.status.cr.hash
+              ELSE IF \E i \in DOMAIN pr.odw : pr.odw[i].op = "create" THEN pr.odw[CHOOSE i \in DOMAIN pr.odw : pr.odw[i].op = "create"].n
+              ELSE ""
+PlanSnapOf(pr) == [ paused |-> pr.snap.cr.paused, hash |-> OdHash(pr), limit |-> HistLimit(pr), nonEmpty |-> pr.snap.cr.phases # <<>> ]
+IsPrefixOf(a, b) == Len(a) <= Len(b) /\ \A i \in DOMAIN a : a[i] = b[i]
+NoTies(pr) == \A i, j \in DOMAIN pr.listed : i # j => (pr.listed[i].cr.revision # pr.listed[j].cr.revision \/ pr.listed[i].cr.revision = 0)
+                                                        /\ pr.listed[i].key # pr.listed[j].key
+
+\* evaluated on the (unprimed) pass record while the PassEnd event is consumed, and remembered in lw.conf: TLC caches
+\* lazily evaluated arguments only outside primed contexts, and the invariants are evaluated primed (Report')
+ConfDeployOK(e) ==
+    LET pr == pass[e.actor] IN
+    (IsDepActorA(e.actor) /\ e.ev = "PassEnd" /\ pr.hasSnap /\ pr.hasList /\ NoTies(pr) /\ OdHash(pr) # "")
+    => LET exp == DP!Plan(PlanSnapOf(pr), PlanL(pr))
+       IN IF e.res = "ok" /\ ~pr.apiErr THEN pr.odw = exp ELSE IsPrefixOf(pr.odw, exp)
+
 TrPassEnd ==
     /\ (IsEv("PassEnd") \/ IsEv("Panic") \/ IsEv("Timeout"))
     /\ pass' = [ pass EXCEPT ![E.actor].active = (E.ev = "Panic") ]
     /\ UNCHANGED <<store, hist, scen>>
-    /\ Advance
+    /\ l' = l + 1 /\ lw' = [ valid |-> TRUE, e |-> E, conf |-> ConfDeployOK(E) ]
 
 \* misc harness events that carry no state
 TrNote ==
@@ -268,6 +306,16 @@ TrOther ==
 
 Changed(e) == e.pre # e.post
 
+\* a write request of the deployment controller on an ObjectSet, in the vocabulary of DeployPlan.tla
+OdOp(pr, e, k) ==
+    IF e.ev = "Create" THEN [ op |-> "create", n |-> e.args.body.cr.hash, prev |-> Range(e.args.body.cr.previous) ]
+    ELSE IF e.ev = "Delete" THEN [ op |-> "del", n |-> k ]
+    ELSE LET b == e.args.body.cr IN
+         [ op |-> IF b.lifecycle = "Archived" THEN "archive"
+                  ELSE IF b.lifecycle = "Paused" THEN (IF pr.hasSnap /\ pr.snap.cr.paused /\ b.pausedByParent THEN "mark" ELSE "pause")
+                  ELSE "unmark",
+           n |-> k ]
+
 TrWrite ==
     /\ l <= Len(Trace) /\ E.actor \notin {"env", "sim"} /\ IsWrite(E.ev)
     /\ LET p  == E.actor
@@ -321,6 +369,9 @@ TrWrite ==
                                     IN IF Len(@) > 0 /\ @[Len(@)].content = c.content THEN [ @ EXCEPT ![Len(@)] = c ] ELSE Append(@, c)
                                ELSE @,
              ![p].clash = IF IsDepActor(pr.actor) /\ E.ev = "Create" /\ E.res = "AlreadyExists" THEN k ELSE @,
+             ![p].odw = IF IsDepActor(pr.actor) /\ ~E.dry /\ E.ev \in {"Create", "Update", "Delete"}
+                           /\ (IF E.ev = "Create" THEN E.args.body.kind ELSE E.pre.kind) \in {"ObjectSet", "ClusterObjectSet", ""}
+                          THEN Append(@, OdOp(pr, E, k)) ELSE @,
              ![p].finRemoved = @ \/ (k = pr.target /\ E.ev = "MergePatch" /\ ok /\ E.args.patch.setsFinalizers
                                      /\ "package-operator.run/cached" \notin Range(E.post.fin)) ]
     /\ UNCHANGED scen
@@ -790,8 +841,6 @@ Inv_C08_ArchiveCondition ==
          /\ LET nxt == PR.listed[CHOOSE i \in newer : \A j \in newer : PR.listed[i].cr.revision <= PR.listed[j].cr.revision] IN
             Range(x.cr.controllerOf) \cap SetObjKeys(nxt) = {}
 
-HistLimit(pr) == IF pr.snap.cr.histLimit < 0 THEN 10 ELSE pr.snap.cr.histLimit
-
 Inv_C08_PruneOldestOnly ==
     (DepWrite /\ W.ev = "Delete" /\ IsSetKind(W.pre.kind) /\ IsListed(PR, W.pre.oid))
     => LET d == ListedBy(PR, W.pre.oid) IN
@@ -819,6 +868,10 @@ Inv_C08_SharedObjectNotDeleted ==
             \* ... also not through an intermediate revision that is gone by now: S is the last entry of N's previous list
             /\ Len(store[nk].cr.previous) > 0 /\ store[nk].cr.previous[Len(store[nk].cr.previous)] = PR.target)
          => W.key \notin SetObjKeys(store[nk])
+
+---------------------------------------------------------------------------
+(* Conformance of the deployment controller with DeployPlan!Plan (definitions next to TrPassEnd) *)
+Conf_DeployPlan == lw.conf
 
 ---------------------------------------------------------------------------
 (* C10 convergence: the end state the spec tracked (from the events of the disturbed run) equals the end state of
